@@ -12,15 +12,15 @@ from ..report import Stats
 
 PROPERTY = "C18"
 LEVEL = "model_checking"
-RULE = ("schedule enumeration (E2): configurations of up to 4 responding hosts, each good or one of 6 bad-reply classes (random "
+RULE = ("schedule enumeration (E2): configurations of up to 4 responding hosts, each good or one of 7 bad-reply classes (random "
         "bytes, undecryptable envelope, envelope with a 3-byte body, non-UTF-8 body, name without separators / non-hex type, XML "
-        "without attributes), 1..3 duplicate copies per host from different source ports; for every configuration ALL distinct "
+        "without attributes, a good reply truncated by 1..48 bytes), 1..3 duplicate copies per host from different source ports; for every configuration ALL distinct "
         "arrival orders of the datagram multiset are executed against the real Discover.discover() on the simulated broadcast. "
         "Oracle: discover() returns (never raises) exactly one device per good host. "
         "state = (configuration, arrival-order prefix); transition = one datagram delivered")
 ASSUMPTIONS = ["duplicates of one host are byte-identical", "datagrams arrive 1 ms apart, all before the 5 s discovery window closes"]
 
-BAD = ["random", "undecryptable", "short-body", "non-utf8", "bad-name", "xml-no-attrs"]
+BAD = ["random", "undecryptable", "short-body", "non-utf8", "bad-name", "xml-no-attrs", "truncated"]
 
 
 def bad_datagram(kind: str, ip: str, variant: int = 0) -> bytes:
@@ -42,6 +42,12 @@ def bad_datagram(kind: str, ip: str, variant: int = 0) -> bytes:
     if kind == "bad-name":
         name = ["netac0001", "net_zz_0001", "net__0001", ""][variant % 4]
         return sd.v2_reply(5, sd.payload(ip, 6444, "S" * 32, name))
+    if kind == "truncated":
+        # an otherwise good reply that lost its last bytes (whole cipher blocks, or not)
+        cut = [16, 1, 32, 17, 8, 48, 33, 15][variant % 8]
+        name = "net_ac_0001" if variant % 2 == 0 else "net_ac_0001_with_a_long_suffix"
+        good = sd.reply(2 + (variant // 2) % 2, 5, ip, 6444, "S" * 32, name)
+        return good[:-cut]
     if kind == "xml-no-attrs":
         return [b"<root><body><device/></body></root>", b"<root><body><device port=\"abc\"/></body></root>"][variant % 2]
     raise ValueError(kind)
